@@ -280,8 +280,80 @@ func c17RunHistory(h c17History, ctx *ev.Ctx) (queries int, cs *C17Case, what st
 			return queries, &C17Case{History: h.name, Step: i + 1, Query: q}, fmt.Sprintf("after loading %d dictionaries, %s: %s", i+1, q, s)
 		}
 		prev = now
+		if i != 0 && i != len(h.xmls)-1 {
+			continue
+		}
+		// Loads that are REJECTED (after the first and after the last dictionary of the history):
+		// whatever Load reports, nothing resolvable before may become unresolvable, and everything
+		// still agrees with the reference model (which only learns what Load accepted).
+		for ri, bad := range c17Rejected(m) {
+			if err := p.Load(bytes.NewReader([]byte(bad.xml))); err == nil {
+				if err := m.Load(bad.xml); err != nil {
+					return queries, &C17Case{History: h.name, Step: i + 1}, fmt.Sprintf("after loading %d dictionaries a dictionary that %s was accepted by Load", i+1, bad.why)
+				}
+			}
+			now := map[string]bool{}
+			n, q, s := c17Queries(p, m, prev, now)
+			queries += n
+			if s != "" {
+				return queries, &C17Case{History: h.name, Step: i + 1, Query: q}, fmt.Sprintf("after loading %d dictionaries and then a rejected Load (#%d: %s), %s: %s", i+1, ri+1, bad.why, q, s)
+			}
+			prev = now
+		}
 	}
 	return queries, nil, ""
+}
+
+type c17Bad struct{ xml, why string }
+
+// c17Rejected builds dictionaries a Load must reject without having added anything the lookups
+// could see: a re-declaration of an existing command (one per application that has commands, at
+// most three), an AVP of an undeclarable data type in the base application and in one loaded
+// application, and XML that stops in the middle.
+func c17Rejected(m *refdict.Model) []c17Bad {
+	var out []c17Bad
+	seen := map[uint32]bool{}
+	for _, f := range m.Files {
+		for _, a := range f.Apps {
+			if seen[a.ID] || len(a.Cmds) == 0 || len(seen) >= 3 {
+				continue
+			}
+			seen[a.ID] = true
+			c := a.Cmds[0]
+			// the application element itself repeats the CURRENT definition (a partial load may
+			// register it before the command is rejected)
+			if cur := m.App(a.ID); cur != nil {
+				a = cur
+			}
+			typ := ""
+			if a.Type != "" {
+				typ = fmt.Sprintf(` type="%s"`, a.Type)
+			}
+			out = append(out, c17Bad{fmt.Sprintf(`<?xml version="1.0" encoding="UTF-8"?><diameter><application id="%d"%s name="%s"><command code="%d" short="%s" name="%s"><request></request><answer></answer></command></application></diameter>`,
+				a.ID, typ, a.Name, c.Code, c.Short, c.Name), fmt.Sprintf("declares command %d of application %d again", c.Code, a.ID)})
+		}
+	}
+	ids := []uint32{0}
+	for id := range seen {
+		if id != 0 {
+			ids = append(ids, id)
+			break
+		}
+	}
+	for _, id := range ids {
+		a := m.App(id)
+		if a == nil {
+			continue // a partial load would register the application itself
+		}
+		typ, name := "", a.Name
+		if a.Type != "" {
+			typ = fmt.Sprintf(` type="%s"`, a.Type)
+		}
+		out = append(out, c17Bad{fmt.Sprintf(`<?xml version="1.0" encoding="UTF-8"?><diameter><application id="%d"%s name="%s"><avp name="Zz-Bad-Type" code="4199999" must="-" may="-" must-not="-" may-encrypt="-"><data type="Unsigned16"/></avp></application></diameter>`,
+			id, typ, name), fmt.Sprintf("declares an AVP of the undeclarable type Unsigned16 in application %d", id)})
+	}
+	out = append(out, c17Bad{`<?xml version="1.0" encoding="UTF-8"?><diameter><application id="4199997" name="Zz"><avp name="Zz-Cut" code="4199998"`, "is cut off in the middle of an element"})
+	return out
 }
 
 func runC17(ctx *ev.Ctx) {
@@ -300,7 +372,7 @@ func runC17(ctx *ev.Ctx) {
 	}
 	ctx.Set("lookups_compared", total)
 	ctx.AddEvals(total, total)
-	ctx.Rule = "loading histories: the embedded dictionaries (extracted from diam/dict/default.go) in default order, every rotation and every adjacent swap; a generated family of four 3-AVP dictionaries that redefine each other's codes and names across application 0 / 4 / 16777251 and vendor variants, in all 24 orders, alone and on top of the base dictionary. After every Load: FindAVPWithVendor by uint32 code, by int code and by name, FindAVP by int, FindCommand and App(id[,type]) for every application (loaded, children of the parent map, 0, an unrelated id) x every code / name present anywhere plus +-1 neighbours x vendor {declared, 0, another, wildcard} are compared with the reference model, and everything resolvable before the Load must still be. Distinct by (history, query)."
+	ctx.Rule = "loading histories: the embedded dictionaries (extracted from diam/dict/default.go) in default order, every rotation and every adjacent swap; a generated family of four 3-AVP dictionaries that redefine each other's codes and names across application 0 / 4 / 16777251 and vendor variants, in all 24 orders, alone and on top of the base dictionary. After every Load - and after Loads that are rejected (a re-declared command, an undeclarable data type, truncated XML) following the first and the last dictionary of each history: FindAVPWithVendor by uint32 code, by int code and by name, FindAVP by int, FindCommand and App(id[,type]) for every application (loaded, children of the parent map, 0, an unrelated id) x every code / name present anywhere plus +-1 neighbours x vendor {declared, 0, another, wildcard} are compared with the reference model, and everything resolvable before the Load must still be. Distinct by (history, query)."
 	ctx.Assume = []string{"reference model refdict: application -> documented parents (16777251->4, 16777238->4, 4->1) -> base; exact vendor or wildcard; last load wins"}
 }
 
